@@ -102,7 +102,8 @@ class Runner:
             tn, td, en, ed = L.tolerances(mag)
             Ai, Bi, Ri = L.translate_case([Ai, Bi, Ri])
             c.ints = (Ai, Bi, Ri, e); c.par = (tn, td, en, ed)
-            lines.append('CHK %s%s %d %d %d %d %d %s %s %s' % (mode, 's' if stats else '', op, tn, td, en, ed, L.text_int(Ai), L.text_int(Bi), L.text_int(Ri)))
+            want = bool(stats) and (stats is True or len(lines) % int(stats) == 0)
+            lines.append('CHK %s%s %d %d %d %d %d %s %s %s' % (mode, 's' if want else '', op, tn, td, en, ed, L.text_int(Ai), L.text_int(Bi), L.text_int(Ri)))
             owners.append(c)
         vouts = self.par_lines([self.drv], lines, timeout=900, chunk=4)
         for c, v, ln in zip(owners, vouts, lines):
@@ -129,6 +130,21 @@ class Runner:
 
 
 # ------------------------------------------------------------------ verdicts
+def env(g):
+    pts = L.all_pts(g)
+    return None if not pts else (min(p[0] for p in pts), max(p[0] for p in pts), min(p[1] for p in pts), max(p[1] for p in pts))
+
+
+def nontrivial(c):
+    if c.call in BIN:
+        a, b = env(c.A), env(c.B)
+        return bool(a and b and b[0] <= a[1] and a[0] <= b[1] and b[2] <= a[3] and a[2] <= b[3])
+    if c.call == 'CLIP':
+        a = env(c.A); x0, y0, x1, y1 = c.rect
+        return bool(a and x0 <= a[1] and a[0] <= x1 and y0 <= a[3] and a[2] <= y1)
+    return len([a for a in L.atoms(c.A) if not L.is_empty(a)]) >= 2
+
+
 def classify(c, runner):
     """-> None (holds) | ('skip', why) | ('fail', clause, text)"""
     if c.out is None:
@@ -162,6 +178,7 @@ def classify(c, runner):
     if f.get('shape') == '0' and c.call != 'CLIP': clauses.append('iv-shape')
     if f.get('sides'): clauses.append('ii-sides')
     if f.get('lows') and c.call != 'CLIP': clauses.append('ii-low')
+    if f.get('conv') and c.call != 'CLIP': clauses.append('ii-conv')
     if f.get('segs'): clauses.append('iii-segs')
     if f.get('pts') and c.call != 'CLIP': clauses.append('iii-pts')
     if not clauses:
@@ -169,11 +186,33 @@ def classify(c, runner):
     return ('fail', '+'.join(clauses), 'checker rejects the result: ' + v.split('#')[0][:400])
 
 
-def known_key(c):
-    """input classes of the recorded findings (known_findings.json, property C03)"""
+def sc_path(c):
+    """HeuristicOverlay hands the pair to StructuredCollection::overlay"""
+    return c.call in BIN and (not L.handled_by_overlayng(c.A) or not L.handled_by_overlayng(c.B))
+
+
+def has_empty_part(g):
+    return L.is_empty(g) or any(L.is_empty(a) for a in L.atoms(g))
+
+
+def known_key(c, clause='', text=''):
+    """input classes of the recorded findings (known_findings.json, property C03): specific to call, path and failing clause"""
     keys = []
-    if c.call == 'SYM' and (not L.handled_by_overlayng(c.A) or not L.handled_by_overlayng(c.B)):
+    if not sc_path(c):
+        return keys
+    low = any(k in clause for k in ('ii-low', 'ii-conv', 'iii-pts', 'iii-segs'))
+    if c.call == 'SYM' and low:
         keys.append('symdiff-structured-collection')
+    if (has_empty_part(c.A) or has_empty_part(c.B)) and (
+            (clause == 'exception' and 'Unable to determine overlay result geometry dimension' in text)
+            or (clause == 'iv-shape' and c.R is not None and L.is_empty(c.R))):
+        keys.append('structured-collection-empty-dimension')
+    if c.call == 'DIF' and 'iii-pts' in clause and any(a[0] == 'PT' and a[1] is not None for a in L.atoms(c.A)) \
+            and any(a[0] == 'LS' and a[1] for a in L.atoms(c.B)):
+        keys.append('difference-structured-collection-point-on-line')
+    if c.call == 'DIF' and 'ii-conv' in clause and any(a[0] == 'LS' and a[1] for a in L.atoms(c.A)) \
+            and any(a[0] == 'LS' and a[1] for a in L.atoms(c.B)) and any(a[0] == 'PG' and a[1] for a in L.atoms(c.B)):
+        keys.append('difference-structured-collection-chained-lines')
     return keys
 
 
@@ -379,9 +418,10 @@ def shrink(ctx, runner, c, clause, budget=60):
 
 # ------------------------------------------------------------------ the check
 def run(ctx):
-    ctx.cov['rule'] = ('one evaluation = one overlay call on valid inputs whose result went through the extracted checker; non-trivial = the '
-                       'witness family has at least one side witness farther than the tolerance from both inputs and the expected membership is '
-                       'true at some low witness (the operands interact or the result is non-empty); distinct by call + operand bit patterns')
+    ctx.cov['rule'] = ('one evaluation = one overlay call on valid inputs whose result went through the extracted checker; non-trivial = both '
+                       'operands non-empty with intersecting envelopes (binary calls), at least two non-empty elements (unary calls), rectangle '
+                       'meeting the envelope (ClipByRect); distinct by call + operand bit patterns.  Witness statistics (side witnesses, '
+                       'how many pass the distance filter, low witnesses in the Boolean combination) are measured on every 6th case')
     ctx.assumptions += [
         'exact scaling of each case (inputs and result are binary64 = dyadic rationals) to integers is done by this Python module (Fractions)',
         'the witness family is finite: that it meets every face of the arrangement of A, B and R is not proved (overlay_check_sound_partial); '
@@ -408,11 +448,12 @@ def run(ctx):
         n_pairs, n_unary, n_full, n_near = 2500, 800, 400, 200
     cases = corpus_cases() + gen_cases(ctx, rng, n_pairs, n_unary, n_full, n_near)
     ctx.log('generated %d cases' % len(cases))
-    runner.run(cases)
+    runner.run(cases, stats=6)
     ctx.log('implementation and checker ran (%.0fs)' % (time.time() - t0))
     dist = {'family': {}, 'call': {}, 'label': {}, 'types': {}, 'skipped': {}, 'result_dims': {}, 'clauses_failed': {}}
     nviol = 0
     known_seen = {}
+    wstats = {}
     for i, c in enumerate(cases):
         r = classify(c, runner)
         if r and r[0] == 'skip':
@@ -424,13 +465,15 @@ def run(ctx):
         if c.R is not None:
             dk = ''.join(map(str, L.dims_present(c.R))) or 'empty'
             dist['result_dims'][dk] = dist['result_dims'].get(dk, 0) + 1
-        nontriv = bool(c.stats and c.stats[1] > 0 and c.stats[3] > 0)
-        ctx.count((c.call, c.harness_line()), nontriv)
+        ctx.count((c.call, c.harness_line()), nontrivial(c))
+        if c.stats:
+            for k, v in zip(('cases', 'side_witnesses', 'side_far', 'low_witnesses', 'low_expected'), [1] + c.stats):
+                wstats[k] = wstats.get(k, 0) + v
         if r is None:
             continue
         _, clause, text = r
         dist['clauses_failed'][clause] = dist['clauses_failed'].get(clause, 0) + 1
-        keys = known_key(c)
+        keys = known_key(c, clause, text)
         kf = ctx.known_match(lambda k: k.get('key', {}).get('class') in keys) if keys else None
         if kf:
             known_seen.setdefault(kf['id'], (kf, c, text))
@@ -446,6 +489,7 @@ def run(ctx):
     rungs(ctx, runner, cases, dist)
     ctx.cov['traces_validated_against_impl'] = ctx.cov['evaluations']
     dist['area_law_groups'] = n_area
+    dist['witness_statistics_sample'] = wstats
     ctx.notes['distribution'] = dist
     for c in cases[:4]:
         ctx.sample(json.dumps(c.describe())[:400])
@@ -524,7 +568,7 @@ def replay(ctx, runner):
     ctx.count(('replay', line), True)
     ctx.log('replay: %s -> %s' % (line[:200], r))
     if r and r[0] == 'fail':
-        keys = known_key(c)
+        keys = known_key(c, r[1], r[2])
         kf = ctx.known_match(lambda k: k.get('key', {}).get('class') in keys) if keys else None
         if kf: ctx.known_hit(kf)
         else: report(ctx, runner, c, r[1], r[2], 'replay')
